@@ -1,7 +1,7 @@
 (* C06 — property theorems only: pinned statement, `exact`, Print Assumptions. *)
 From Coq Require Import List NArith Bool.
 Import ListNotations.
-From L4 Require Import Common.FSRoll Model.Rolling Proofs.Rolling.
+From L4 Require Import Common.FSRoll Model.Rolling Proofs.Rolling Proofs.RollingStream.
 Local Open Scope N_scope.
 
 (* At every policy consultation of every history — any trigger (size,
@@ -32,6 +32,22 @@ Theorem C06_rolls_iff_exceeds :
         lookup (files s') Active = Some (content (files s) Active ++ concat chunks)).
 Proof. exact rolls_iff_exceeds. Qed.
 Print Assumptions C06_rolls_iff_exceeds.
+
+(* History form: in every history (any pre-existing content, first build and
+   restarts in either mode), the i-th op, if it appends a record, writes it,
+   consults the policy exactly once — with the true size of the active file
+   after the write — and rotates iff that size exceeds the limit: never
+   earlier, never deferred.  (`before` = state after the first i ops.) *)
+Theorem C06_size_rolls_exactly :
+  forall limit rl a0 pre ops i chunks,
+    nth_error ops i = Some (Append chunks) ->
+    let c := {| trig := TSize limit; roll_by := rl |} in
+    let before := fst (run c a0 pre (firstn i ops)) in
+    let sz := disk_len (files before) + blen (concat chunks) in
+    nth_error (snd (run c a0 pre ops)) (S i)
+    = Some [EWrote (concat chunks); EConsult sz sz (limit <? sz)].
+Proof. exact size_rolls_exactly. Qed.
+Print Assumptions C06_size_rolls_exactly.
 
 (* After every append of every history the active file has just been rotated
    away or holds at most `limit` bytes (limit = 0 included). *)
